@@ -285,11 +285,7 @@ func (se *Session) Do(op fin.OpSpec) string {
 			sample = append(sample, all[i].Coq)
 		}
 	}
-	var sg []string
-	for _, h := range signers {
-		sg = append(sg, vh.BytesAsN(h[:]))
-	}
-	se.hops = append(se.hops, vh.App("HSnap", fin.CoqSnap(snap), vh.List(sg, "N"), fin.CoqRes(class), vh.Nat(nadded), vh.List(sample, "entry")))
+	se.hops = append(se.hops, vh.App("HSnap", fin.CoqSnap(snap), fin.HashList(signers), fin.CoqRes(class), vh.Nat(nadded), vh.List(sample, "entry")))
 	return class
 }
 
@@ -664,11 +660,15 @@ func (g *Gen) commit(batch []*ptx) {
 
 // snapshot finalizes a batch: size members of pending (plus overlaps / repeats), optionally a failing member at pos
 func (g *Gen) snapshot(size int, withFailure bool, pos int) {
-	for len(g.pending) < size {
+	for tries := 0; len(g.pending) < size && tries < 6*size+20; tries++ {
 		before := len(g.pending)
 		g.newTx()
-		if len(g.pending) == before && g.r.Chance(1, 8) && len(g.pending) > 0 {
-			break
+		if len(g.pending) == before && g.r.Chance(1, 2) {
+			// nothing spendable: fund with a deposit of the unbounded custom asset
+			g.submit(g.deposit(g.custom, g.amount(40), ""), false)
+			if _, ok := g.info[g.custom]; !ok {
+				g.info[g.custom] = [2]string{hexH(common.EthereumAssetId), fmt.Sprintf("0xassetkey%s", g.custom[:6])}
+			}
 		}
 	}
 	if size > len(g.pending) {
@@ -799,7 +799,7 @@ func history(c *vh.Ctx, r *vh.Rand, big int) {
 	} else {
 		steps := r.Range(3, 8)
 		for i := 0; i < steps; i++ {
-			size := r.Range(1, 12)
+			size := r.Range(1, 9)
 			g.snapshot(size, r.Chance(1, 2), r.Intn(size+1))
 		}
 	}
@@ -858,7 +858,7 @@ func main() {
 	for _, n := range []int{1, 2, 5} {
 		everyPosition(c, c.Rng.Fork(fmt.Sprintf("pos%d", n)), n)
 	}
-	n := c.Scale(14, 300)
+	n := c.Scale(10, 300)
 	for i := 0; i < n; i++ {
 		history(c, c.Rng.Fork(fmt.Sprintf("h%d", i)), 0)
 	}
